@@ -29,7 +29,7 @@ func c04Alphabet(reduced bool) []amgr.Op {
 	a := []amgr.Op{
 		{K: "next_ext", N: 2}, {K: "next_int", N: 1}, {K: "new_account"}, {K: "import_priv", N: 1},
 		{K: "import_wscript", N: 1}, {K: "chpass_priv"}, {K: "lock"}, {K: "unlock"}, {K: "to_watching"}, {K: "restart"},
-		{K: "next_ext", A: 1, N: 1},
+		{K: "next_ext", A: 1, N: 1}, {K: "neuter_root"},
 	}
 	if !reduced {
 		a = append(a, amgr.Op{K: "extend_ext", N: 2}, amgr.Op{K: "new_scope"}, amgr.Op{K: "import_script", N: 2},
